@@ -46,7 +46,6 @@ Statement::~Statement()
 const Statement *Statement::execute(Context& ctx) const
 {
   bool trace = ctx.trace();
-  _level = ctx.execLevel();
   if (trace) trace_pre(ctx);
 #ifdef BLOC_VERIF
   if (verif_hooks.on_statement)
